@@ -326,7 +326,13 @@ def path_programs(ctx, n_per=None):
     # a load with as many candidate stores as the tracked history holds (MAX_ATOMIC_HISTORY = 7: the initial value + 6 stores)
     full = [dsl.normalize(families.P("full-history-load", [dsl.spawn(2), dsl.ld("x"), dsl.join(2)], [dsl.st("x", v) for v in range(1, 7)])),
             dsl.normalize(families.P("full-history-rmw", [dsl.spawn(2), dsl.ld("x"), dsl.ld("x"), dsl.join(2)], [dsl.st("x", v) for v in range(1, 6)] + [dsl.swap("x", 6)]))]
-    return full + pool[:n_per - len(full)]
+    # programs whose later iterations depend on per-execution state being reset (SeqCst fence clock, statics, yield
+    # counts): a checkpoint holds the Path only, so a resumed run equals the uninterrupted one only if nothing else
+    # is carried from one iteration to the next
+    A, _B = families.iso_base()
+    full += [a for a in A if a.get("name") in ("iso-SB-scfence", "iso-scfence-stale", "iso-scfence-3", "iso-statics",
+                                               "iso-yield-while-others-blocked")]
+    return full + pool[:max(0, n_per - len(full))]
 
 
 def C14(ctx):
@@ -382,7 +388,7 @@ def C13(ctx):
     cfgU = {"want_paths": True, "want_seq": True, "iter_cap": 2500}
     U1 = core.run_loom(ctx, pool, cfg_of=lambda p: cfgU, tag="u1")
     base = [(p, r) for p, r in zip(pool, U1) if r["end"] == "ok" and 3 <= r["iters"] <= 2000]
-    base = base[: (10 if ctx.tier == "quick" else 60)]
+    base = base[: (14 if ctx.tier == "quick" else 60)]
     progs = [p for p, _ in base]
     U1 = [r for _, r in base]
     U2 = core.run_loom(ctx, progs, cfg_of=lambda p: cfgU, tag="u2")
